@@ -8,6 +8,7 @@ import (
 	"time"
 
 	"github.com/transparency-dev/witness/internal/persistence"
+	"github.com/transparency-dev/witness/omniwitness"
 	"github.com/transparency-dev/witness/verifmc/lspwrap"
 
 	"github.com/transparency-dev/witness/verifmc/ev"
@@ -131,6 +132,9 @@ func c01(tier string) int {
 	// Fault leg: every single storage fault in the C07 histories; everything
 	// returned as accepted must lie on one history.
 	runFaults(run, "C01", tier, false)
+	// Twin leg: two IDs configured with one origin line - each ID has its own
+	// append-only history whatever is written under the other.
+	twinLeg(run, "C01")
 	for _, k := range []string{"first-use", "growth", "refresh"} {
 		if run.HistGet("accepted_kinds", k) == 0 {
 			run.Vacuous("no accepted %s step was explored", k)
@@ -161,6 +165,8 @@ func c03(tier string) int {
 	c05Concurrent(run, "C03", tier)
 	// Context leg: the caller's context ends at every storage call of an update.
 	c03Contexts(run)
+	// Endpoint leg: refusals as the add-checkpoint endpoint reports them.
+	c03Endpoint(run)
 	for _, c := range []string{"unknown-log", "bad-signature", "old-size-too-large", "stale-old-size", "root-mismatch", "invalid-proof", "non-empty-proof-at-size-zero", "storage-failure"} {
 		if run.HistGet("refusal_classes", c) == 0 {
 			run.Vacuous("refusal class %q was never exercised", c)
@@ -190,6 +196,26 @@ func c04(tier string) int {
 	runPlan(run, p, c04Monitor(run, true), nil)
 	// One configuration on the real wall clock with the inclusive window.
 	c04WallClock(run)
+	// Log IDs are opaque strings to the witness (the route admits
+	// [a-zA-Z0-9-]+): a log registered under a mixed-case ID next to one whose
+	// ID differs only in case - every read after an accepted update, over the
+	// HTTP endpoint too, is that log's checkpoint.
+	{
+		u := uni.New(ev.Seed(), 4, []int{0})
+		gen := wh.NewCPGen(u)
+		lm := wh.LogCfg{Origin: "verif.example/Mixed-Case", Key: u.K1, CustomID: "LogA-Mixed"}
+		lt := wh.LogCfg{Origin: "verif.example/mixed-case-twin", Key: u.K2, CustomID: "loga-mixed"}
+		cpT, metaT := gen.Get(lt, u.Main, 3, "plain")
+		for _, store := range []string{"mem", "sql"} {
+			st, tr := wh.Search(wh.SearchOpts{U: u, Gen: gen, Store: store, Log: lm, Extra: []wh.LogCfg{lt}, Prelude: []wh.Req{{LogID: lt.ID(), CP: cpT, Meta: metaT, Label: "first use of the case twin"}},
+				Alpha: wh.AlphaOpts{MaxN: 4, Shapes: []string{"plain", "ext"}}, Workers: 4, OnStep: c04Monitor(run, true), Run: run})
+			run.Add("states", int64(st))
+			run.Add("transitions", tr)
+			run.Add("traces_validated_against_impl", tr)
+			run.Add("evaluations", tr)
+			run.Add("mixed_case_id_transitions", tr)
+		}
+	}
 	// Concurrent leg: growth vs refresh of one log - every
 	// checkpoint handed out under every interleaving is the submitted text,
 	// log-signed, with exactly one valid line per witness key.
@@ -256,6 +282,8 @@ func c20(tier string) int {
 	runPlan(run, pf, mon, nil)
 	wh.InstallLogicalClock()
 	c20Faults(run)
+	// Context leg: a request whose caller gives up still named a known log.
+	ctxLeg(run, "C20")
 	for _, c := range []string{wh.OK, wh.Unknown, wh.NoSig, wh.OldInvalid, wh.Stale, wh.RootMismatch, wh.BadProof} {
 		if run.HistGet("outcomes", c) == 0 {
 			run.Vacuous("outcome %q never occurred", c)
@@ -331,20 +359,34 @@ func c20Faults(run *ev.Run) {
 	}
 }
 
-// c03Contexts: the caller's context is cancelled at each storage call of an
-// otherwise acceptable update (before the call runs), for first use, growth
-// and refresh on both stores. Whatever the witness then answers, an answer
-// that is an ERROR must leave the state as it was - also once every goroutine
-// the update may have left behind has finished (the check waits for storage
-// activity to cease) - and a nil answer must have stored what it returned.
-func c03Contexts(run *ev.Run) {
+// ctxLeg (shared; C03 was its first owner): the caller's context is cancelled
+// before the call and at each storage call of an update (first use, growth,
+// same-size re-submission), on both stores, for a witness of two logs of which
+// log B holds a checkpoint throughout. The update may be answered either way;
+// each property owns what must hold afterwards, once nothing the update left
+// running touches the store any more:
+//
+//	C03  refused => stored state unchanged, no foreign bytes returned
+//	C07  the store is usable: a read of every log and a further update complete
+//	C12  log B is untouched and still answers; a same-size update of B is accepted
+//	C13  (through the in-process adapter the feeders use) what the caller was told
+//	     agrees with what the witness holds: an error means the witness did not move
+//	C20  the attempt counter counted the request; success iff it was accepted
+func c03Contexts(run *ev.Run) { ctxLeg(run, "C03") }
+
+func ctxLeg(run *ev.Run, prop string) {
 	u := uni.New(ev.Seed(), 8, nil)
 	gen := wh.NewCPGen(u)
-	la := wh.LogCfg{Origin: logA(), Key: u.K1}
+	la := wh.LogCfg{Origin: logA() + "/ctx-" + prop, Key: u.K1}
+	lb := wh.LogCfg{Origin: logB() + "/ctx-" + prop, Key: u.K2}
 	type kind struct {
 		name   string
 		seed   int // 0 = no prior state
 		old, n int
+	}
+	type res struct {
+		b   []byte
+		err error
 	}
 	var n int64
 	for _, store := range []string{"mem", "sql"} {
@@ -354,7 +396,7 @@ func c03Contexts(run *ev.Run) {
 				armed := false
 				var mu sync.Mutex
 				lastActivity := time.Now()
-				e := wh.NewEnv(u, wh.Config{Store: store, Logs: []wh.LogCfg{la}, NoGuard: true, Wrap: func(p persistence.LogStatePersistence) persistence.LogStatePersistence {
+				e := wh.NewEnv(u, wh.Config{Store: store, Logs: []wh.LogCfg{la, lb}, Guard: true, Wrap: func(p persistence.LogStatePersistence) persistence.LogStatePersistence {
 					return lspwrap.New(p, lspwrap.Hooks{Point: func(op, id string) {
 						mu.Lock()
 						lastActivity = time.Now()
@@ -372,6 +414,10 @@ func c03Contexts(run *ev.Run) {
 						mu.Unlock()
 					}})
 				}})
+				cpB, metaB := gen.Get(lb, u.Main, 2, "plain")
+				if out := e.Do(wh.Req{LogID: lb.ID(), CP: cpB, Meta: metaB}); out.Class != wh.OK {
+					ev.Internal("context leg: seeding log B failed: %v", out.Err)
+				}
 				if k.seed > 0 {
 					cp, meta := gen.Get(la, u.Main, k.seed, "plain")
 					if out := e.Do(wh.Req{LogID: la.ID(), CP: cp, Meta: meta}); out.Class != wh.OK {
@@ -379,6 +425,7 @@ func c03Contexts(run *ev.Run) {
 					}
 				}
 				before := e.Snap()
+				cBefore := wh.Metrics.Snapshot()
 				cp, meta := gen.Get(la, u.Main, k.n, "ext")
 				ctx, c := context.WithCancel(context.Background())
 				cancel = c
@@ -388,20 +435,23 @@ func c03Contexts(run *ev.Run) {
 				if at == "before-the-call" {
 					cancel()
 				}
-				type res struct {
-					b   []byte
-					err error
-				}
 				ch := make(chan res, 1)
 				go func() {
-					b, err := e.W.Update(ctx, la.ID(), uint64(k.old), append([]byte{}, cp...), u.Main.Proof(k.old, k.n))
+					var b []byte
+					var err error
+					if prop == "C13" {
+						b, err = omniwitness.VerifWitnessAdapter(e.W).Update(ctx, la.ID(), uint64(k.old), append([]byte{}, cp...), u.Main.Proof(k.old, k.n))
+					} else {
+						b, err = e.W.Update(ctx, la.ID(), uint64(k.old), append([]byte{}, cp...), u.Main.Proof(k.old, k.n))
+					}
 					ch <- res{b, err}
 				}()
+				rep := map[string]any{"kind": "context", "store": store, "update": k.name, "at": at}
 				var r res
 				select {
 				case r = <-ch:
 				case <-time.After(60 * time.Second):
-					run.Report("update-blocked-after-context-ended at="+at, fmt.Sprintf("%s store, %s: Update did not return within 60 s of its context being cancelled at %s", store, k.name, at), map[string]any{"kind": "context", "store": store, "update": k.name, "at": at})
+					run.Report("update-blocked-after-context-ended at="+at, fmt.Sprintf("%s store, %s: Update did not return within 60 s of its context being cancelled at %s", store, k.name, at), rep)
 					continue
 				}
 				// Let anything the update left running finish: no storage call for 300 ms.
@@ -415,24 +465,65 @@ func c03Contexts(run *ev.Run) {
 					time.Sleep(50 * time.Millisecond)
 				}
 				cancel()
+				cAfter := wh.Metrics.Snapshot()
 				after := e.Snap()
 				n++
-				rep := map[string]any{"kind": "context", "store": store, "update": k.name, "at": at}
 				run.Hist("context_outcomes", fmt.Sprintf("%s cancelled at %s -> error=%v", k.name, at, r.err != nil))
-				if r.err != nil {
-					if !after.Equal(before) {
-						run.Report("state-changed class=context-ended at="+at+" update="+k.name, fmt.Sprintf("%s store: %s with the caller's context cancelled at %s was refused (%v) but the stored state changed", store, k.name, at, r.err), rep)
+				if e.Blocked {
+					// The store's only connection is held by something the update left behind.
+					if prop != "C20" {
+						run.Report("store-blocked-after-context-ended at="+at+" update="+k.name, fmt.Sprintf("%s store: after %s with the caller's context cancelled at %s (answered err=%v) a read of the store did not return within 60 s: every later operation on every log waits for ever", store, k.name, at, r.err), rep)
 					}
-					if r.b != nil && string(r.b) != before.ByID[la.ID()] {
-						run.Report("bytes-with-refusal class=context-ended at="+at, fmt.Sprintf("%s store: %s refused (%v) but returned bytes that are not the stored checkpoint", store, k.name, r.err), rep)
+					continue
+				}
+				switch prop {
+				case "C03", "C13":
+					if r.err != nil {
+						if !after.Equal(before) {
+							sig := "state-changed class=context-ended at=" + at + " update=" + k.name
+							what := "was refused"
+							if prop == "C13" {
+								sig = "witness-moved-after-the-caller-was-told-it-failed at=" + at + " update=" + k.name
+								what = "through the in-process adapter was answered with an error"
+							}
+							run.Report(sig, fmt.Sprintf("%s store: %s with the caller's context cancelled at %s %s (%v) but the stored state changed", store, k.name, at, what, r.err), rep)
+						}
+						if prop == "C03" && r.b != nil && string(r.b) != before.ByID[la.ID()] {
+							run.Report("bytes-with-refusal class=context-ended at="+at, fmt.Sprintf("%s store: %s refused (%v) but returned bytes that are not the stored checkpoint", store, k.name, r.err), rep)
+						}
+					} else {
+						text, _, ok := uni.SplitNote([]byte(after.ByID[la.ID()]))
+						if !ok || text != meta.Text || after.ByID[la.ID()] != string(r.b) {
+							run.Report("accepted-not-stored class=context-ended at="+at, fmt.Sprintf("%s store: %s with the context cancelled at %s was answered as accepted but the store does not hold what was returned", store, k.name, at), rep)
+						}
 					}
-				} else {
-					text, _, ok := uni.SplitNote([]byte(after.ByID[la.ID()]))
-					if !ok || text != meta.Text || after.ByID[la.ID()] != string(r.b) {
-						run.Report("accepted-not-stored class=context-ended at="+at, fmt.Sprintf("%s store: %s with the context cancelled at %s was answered as accepted but the store does not hold what was returned", store, k.name, at), rep)
+				case "C20":
+					id := la.ID()
+					for _, cn := range []string{"attempt", "success", "invalid", "inconsistent"} {
+						key := c20Names[cn] + "{" + id + "}"
+						want := int64(0)
+						if cn == "attempt" || (cn == "success" && r.err == nil) {
+							want = 1
+						}
+						if d := cAfter[key] - cBefore[key]; d != want {
+							run.Report(fmt.Sprintf("counter=%s outcome=context-ended at=%s delta=%d want=%d", c20Names[cn], at, d, want),
+								fmt.Sprintf("%s store, %s with the caller's context cancelled at %s (answered err=%v): counter %s moved by %d, want %d - the request named a known log", store, k.name, at, r.err, key, d, want), rep)
+						}
 					}
 				}
-				e.Close()
+				if prop == "C07" || prop == "C12" {
+					// Log B: untouched, and it still answers.
+					if after.ByID[lb.ID()] != before.ByID[lb.ID()] {
+						run.Report("other-log-changed class=context-ended at="+at, fmt.Sprintf("%s store: %s of log A with the context cancelled at %s changed what is held for log B", store, k.name, at), rep)
+					}
+					out := e.Do(wh.Req{LogID: lb.ID(), Old: 2, CP: cpB, Meta: metaB})
+					if e.Blocked || out.Class != wh.OK {
+						run.Report(fmt.Sprintf("next-operation-after-context-ended verdict=%s at=%s update=%s", out.Class, at, k.name), fmt.Sprintf("%s store: after %s of log A with the caller's context cancelled at %s (answered err=%v) a same-size update of log B was answered %s (%v)", store, k.name, at, r.err, out.Class, out.Err), rep)
+					}
+				}
+				if !e.Blocked {
+					e.Close()
+				}
 			}
 		}
 	}
